@@ -43,7 +43,7 @@ def rand_cfg(rng):
 
 
 def w_init_line(w, path, cfg):
-    return "w_init %d %s %s %s %s %s %d %d" % (w, path, cfg["comp"], cfg["level"], cfg["bs"], cfg["ri"], cfg["pool"], cfg["prefix"])
+    return "w_init %d %s %s %s %s %s %d %d%s" % (w, path, cfg["comp"], cfg["level"], cfg["bs"], cfg["ri"], cfg["pool"], cfg["prefix"], " sparse" if cfg.get("sparse") else "")
 
 
 def write_table_lines(w, path, cfg, entries):
